@@ -226,7 +226,10 @@ theorem wakeOne_wakeQ (q : Quirks) (s : State)
   · next h' => rw [h']; rfl
   · next w rest hw =>
     rw [hw]
-    simp only [List.tail_cons, h w rest hw, hp w rest hw, Bool.true_eq_false, Bool.false_eq_true, and_false, if_false]
+    have hps : probeSees q { s with wakeQ := rest } w.conn = false := by
+      show ((s.conns w.conn).peerClosed && _) = false
+      rw [hp w rest hw]; rfl
+    simp only [List.tail_cons, h w rest hw, hps, Bool.true_eq_false, Bool.false_eq_true, and_false, if_false]
     split
     · rfl
     · split
